@@ -8,8 +8,11 @@ from . import core
 def main(argv):
     prop, tier, seed, shard, nshards, out, soft = argv[0], argv[1], int(argv[2]), int(argv[3]), int(argv[4]), argv[5], float(argv[6])
     core.setup_path()
-    import faulthandler, os
-    faulthandler.dump_traceback_later(float(os.environ.get('VERIF_STALL_DUMP', '400')), repeat=True, file=sys.stderr)
+    import os
+    if os.environ.get('VERIF_STALL_DUMP'):
+        # debugging aid only: on this interpreter (3.12.1) the watchdog thread's traceback dump can take the process down with it
+        import faulthandler
+        faulthandler.dump_traceback_later(float(os.environ['VERIF_STALL_DUMP']), repeat=True, file=sys.stderr)
     mod = core.load_prop(prop)
     ctx = core.Ctx(prop, tier, seed, shard, nshards)
     core.run_cases(ctx, mod, budget=soft)
